@@ -76,3 +76,12 @@ reg("C08", "other",
     "after the committed shape (KNOWN-FINDING D8, not a small repair); paired iteration pulls exactly one shape and one row per "
     "item and ends when either side ends; writer and reader derive sibling names with the same extension literals, the .dbf is "
     "mandatory and the .shx optional for the readers. Nothing inside dbase is decided.")
+reg("C05", "other",
+    "field tables from ADTs (E1), four-point f64 ordering domain (E6), index-set coverage of the fold loops (E3)",
+    "Premises of the exact-box induction, checked for every impl and constructor: each of the six shrink/grow impls updates "
+    "exactly the f64 fields of its point type, field f from (self.f, other.f), through a function that the four-point ordering "
+    "domain shows to be min (shrink) / max (grow); every public multi-vertex constructor seeds the box with vertex [0] and folds "
+    "shrink->min and grow->max over index sets that cover every vertex of every part; accessor tables (box ranges, [v,v], [0,0] "
+    "for no-data); grow_from_shape's (dimension, index, function, guard) table, the sentinel installation and finalize's "
+    "zeroing rule. Not decided: NaN coordinates and the header M range of multipatch/no-data files (excluded by the property); "
+    "the induction itself is prose.")
